@@ -269,6 +269,8 @@ class SymArray(np.ndarray):
 
 
 def _matmul(a, b):
+    if a.ndim > 2 or b.ndim > 2:
+        return np.matmul(np.asarray(a, dtype=object), np.asarray(b, dtype=object))  # native object loop (stacks)
     if a.ndim == 1 and b.ndim == 1:
         return functools.reduce(operator.add, [a[i] * b[i] for i in range(a.shape[0])], 0)
     if a.ndim == 1:
@@ -426,7 +428,10 @@ def _inv(m):
     c = concrete_or_none(m)
     if c is not None:
         return np.linalg.inv(c)
-    raise Unsupported("np.linalg.inv on a symbolic matrix (only reached when a caller did not fork on det first)")
+    # concretise by forking on every symbolic cell (sound: just more paths), then the REAL float inverse runs
+    from .stubs import concretize_matrix
+
+    return np.linalg.inv(concretize_matrix(m))
 
 
 def _real(a):
@@ -630,7 +635,7 @@ def sym_array(obj, dtype=None, **k):
         return np.array(obj, dtype=dtype, **k)
     if has_sym(probe):
         return probe.view(SymArray)
-    return np.array(obj, dtype=dtype, **k)
+    return wrap(np.array(obj, dtype=dtype, **k))
 
 
 class RandomProxy:
